@@ -1,27 +1,38 @@
 import Ecal.Drivers.Util
 import Ecal.Model.Conc
+import Ecal.Model.SinkSpec
+import Ecal.Model.SinkClosure
+import Ecal.Model.Scope
 /-!
 Driver of C11. Payload (space separated `key=value`):
-  `w=<workers> h=<submitters> ev=<events> sinks=<n> ff=<0|1> body=<…> glob=<0|1> burst=<n> shadow=<0|1> nap=<0|1> seed=<n>`
-The model side instantiates `Ecal.Conc.sinkSys []` (the action closure as it is: no
-captured assignment) with min(ev, 48) overlapping invocations whose outcomes and whose
-interleaving (at most `w` invocations in flight) are derived from the seed, and counts
-lost / duplicated / mis-attributed results and wrong echoes against the outcome
-function. Result: `<lost> <dup> <misattr> <echo>` (theorem `errors_attributed`: all 0).
+  `w=<workers> h=<submitters> ev=<events> sinks=<n> ff=<0|1> body=<light|heavy> glob=<0|1> burst=<n>
+   shadow=<0|1> nap=<0|1> feat=<letters|-> seed=<n>`
+The model side computes, from the payload alone, every invocation each event must cause and the
+outcome of each (`Ecal.SinkSpec`: a function of (sink, event)), and prints the digest of the
+records this implies — errors recorded per (event, sink) with shape, id and sink named inside the
+error; echo records with the accumulator and `m.k`; the lock-protected global counter; the
+declaring scope intact. By `errors_attributed` / `event_is_local` the interleaved model returns
+exactly these outcomes for every schedule, so the digest does not depend on w, h, burst, nap or
+the sink-body features; as a self-check the first invocations are also run through the
+interleaving models (`Ecal.Closure.closureSys []`, `Ecal.Scope.setupSys` with the real set-up order) under a
+schedule derived from the seed.
+Result: `E<n>:<digest> R<n>:<digest> T<counter|-> S<1|-> D0` (D = duplicate root monitor ids: every event
+has its own root monitor, the engine's ids are distinct).
 -/
 namespace Ecal.Drv.C11
-open Ecal.Drv Ecal.Conc
+open Ecal.Drv Ecal.Conc Ecal.SinkSpec
 
 def field (fs : List String) (k : String) : Nat :=
   match fs.find? (·.startsWith (k ++ "=")) with
   | some s => ((s.drop (k.length + 1)).toString.toNat?).getD 0
   | none => 0
 
-def lcg (x : Nat) : Nat := (x * 6364136223846793005 + 1442695040888963407) % 18446744073709551616
+def fieldStr (fs : List String) (k : String) : String :=
+  match fs.find? (·.startsWith (k ++ "=")) with
+  | some s => (s.drop (k.length + 1)).toString
+  | none => ""
 
-/-- outcome of the invocation for event `ev`: fails with an error naming the event, or succeeds -/
-def outcomeOf (seed ev : Nat) : Option Nat :=
-  if (lcg (seed + 31 * ev) / 65536) % 2 = 0 then some (1000 + ev) else none
+def lcg (x : Nat) : Nat := (x * 6364136223846793005 + 1442695040888963407) % 18446744073709551616
 
 /-- interleaving: a window of `w` invocations in flight, a random one of them steps -/
 def schedOf : Nat → Nat → Nat → Nat → List Nat
@@ -31,35 +42,37 @@ def schedOf : Nat → Nat → Nat → Nat → List Nat
     let base := (fuel / 4) % n
     ((base + (x / 65536) % w) % n) :: schedOf fuel x w n
 
+/-- self-check: the interleaved closure / scope models return the specified outcomes -/
+def modelConsistent (c : Cfg) (w : Nat) : Bool :=
+  let invs := ((List.range (min c.ev 24)).flatMap (invocations c)).take 48
+  let n := invs.length
+  if n = 0 then true else
+  let inv := fun t => invs.getD t ⟨0, 0, 0⟩
+  let outcome : Nat → Nat → Ecal.Closure.Outcome := fun s ev =>
+    match Ecal.SinkSpec.outcome c s ev with
+    | 0 => (none, none)
+    | m => (some (m + 10 * s + 100 * ev), some ev)
+  let sched := schedOf (n * 6) c.seed w n ++ (List.range (n * 5)).map (· % n)
+  let fin := run (Ecal.Closure.closureSys [] outcome)
+    ⟨fun _ => none, fun t => Ecal.Closure.fresh (inv t).sink (inv t).event⟩ sched
+  let g0 : Unit → Ecal.Scope.Chain := fun _ =>
+    [fun x => if c.shadow ∧ x = "event" then some 4242 else none]
+  let setup := [("NewScope", ""), ("SetValue", "event"), ("SetParentOfScope", ""), ("Eval", "")]
+  let sfin := run Ecal.Scope.setupSys
+    ⟨g0, fun t => { rest := setup, val := fun _ => (inv t).event, probe := "event" }⟩ sched
+  (List.range n).all fun t =>
+    (fin.locals t).ret == some (outcome (inv t).sink (inv t).event) &&
+    ((sfin.locals t).reads.all (· == some (inv t).event)) && !(sfin.locals t).reads.isEmpty
+
 def runCase (payload : String) : String :=
   let fs := payload.splitOn " "
   let w := field fs "w"
-  let ev := field fs "ev"
-  let seed := field fs "seed"
-  if w = 0 ∨ ev = 0 then "bad-payload" else
-  let n := min ev 48
-  let outcome := outcomeOf seed
-  let init : State String (Option Nat) SLoc := ⟨fun _ => none, fun t => { event := t }⟩
-  let sched := schedOf (n * 6) seed w n ++ (List.range (n * 3)).map (· % n)
-  let fin := run (sinkSys [] outcome) init sched
-  let ts := List.range n
-  let lost := (ts.filter fun t => (outcome t).isSome ∧ (fin.locals t).ret ≠ some (outcome t)).length
-  let mis := (ts.filter fun t =>
-    match (fin.locals t).ret with
-    | some (some e) => outcome t ≠ some e
-    | _ => false).length
-  -- an error value returned by more invocations than produced it
-  let dup := (ts.filter fun t =>
-    match outcome t with
-    | some e => (ts.filter fun u => (fin.locals u).ret = some (some e)).length > 1
-    | none => false).length
-  -- the scope model (`event` stored before the parent link); shadow=1: the declaring scope defines `event`
-  let g0 : String → Option Nat := fun x => if field fs "shadow" = 1 ∧ x = eventCell then some 4242 else none
-  let sfin := run (scopeSys false) ⟨g0, fun t => { event := t }⟩ sched
-  let echo := (ts.filter fun t => (fin.locals t).echo ≠ some t).length
-    + (ts.filter fun t => (sfin.locals t).read1 ≠ some t ∨ (sfin.locals t).read2 ≠ some t).length
-    + (if sfin.shared eventCell = g0 eventCell then 0 else 1)
-  s!"{lost} {dup} {mis} {echo}" ++ (if w ≥ 2 ∧ field fs "h" * (max 1 (field fs "burst")) ≥ 2 ∧ ev ≥ 100 then "\tnt=1" else "")
+  let c : Cfg := { seed := field fs "seed", sinks := field fs "sinks", ev := field fs "ev",
+                   ff := field fs "ff" = 1, glob := field fs "glob" = 1, heavy := fieldStr fs "body" = "heavy",
+                   shadow := field fs "shadow" = 1, featC := (fieldStr fs "feat").contains 'c' }
+  if w = 0 ∨ c.ev = 0 ∨ c.sinks = 0 then "bad-payload" else
+  line c ++ (if modelConsistent c w then "" else " MODEL-INCONSISTENT")
+    ++ (if w ≥ 2 ∧ field fs "h" * (max 1 (field fs "burst")) ≥ 2 ∧ c.ev ≥ 100 then "\tnt=1" else "")
 
 def run (_args : List String) : IO Unit := lineLoop runCase
 end Ecal.Drv.C11
